@@ -37,7 +37,7 @@ def alphabet(m):
 
 
 def run(tier, res, is_known):
-    depth = 4 if tier == 'quick' else 6
+    depth = 4 if tier == 'quick' else 5
     fees = FEES_QUICK if tier == 'quick' else FEES_THOROUGH
     res.rule = ('BFS over SimulatedBroker histories (events: account/portfolio subscribe+withdraw, create, '
                 'submit, tick, quotes) from 4 initial states x fee configurations; a state is non-trivial '
